@@ -226,7 +226,7 @@ fn req_vals(vals: &[&str]) -> Vec<Option<String>> {
     vals.iter().map(|x| Some(x.to_string())).collect()
 }
 
-pub fn enumerate(tier: Tier, bodies: &[BodyDef]) -> Vec<Case> {
+pub fn enumerate_headers(tier: Tier) -> Vec<Case> {
     let t = tier == Tier::Thorough;
     let paths: &[&str] = &["/", "/a/b"];
     let dests: &[&str] = &[":1.5", "org.a.B"];
@@ -239,7 +239,6 @@ pub fn enumerate(tier: Tier, bodies: &[BodyDef]) -> Vec<Case> {
         &["x.y.E"]
     };
     let rserials: &[u32] = if t { &[5, u32::MAX] } else { &[5] };
-    let serials: &[Option<u32>] = &[None, Some(0xfffffffe)];
 
     let mut out = vec![];
     for mtype in [rm::METHOD_CALL, rm::SIGNAL, rm::METHOD_RETURN, rm::ERROR] {
@@ -289,42 +288,67 @@ pub fn enumerate(tier: Tier, bodies: &[BodyDef]) -> Vec<Case> {
             }
         }
         for (p, i, m, e, d, dinh, sn, rs, rem) in headers {
-            for flags in 0u8..8 {
-                for be in [false, true] {
-                    for (bi, b) in bodies.iter().enumerate() {
-                        for typed in [false, true] {
-                            if typed && b.typed.is_none() {
-                                continue;
-                            }
-                            for serial in serials {
-                                for route in [0u8, 1] {
-                                    out.push(Case {
-                                        mtype,
-                                        be,
-                                        flags,
-                                        serial: *serial,
-                                        path: p.clone(),
-                                        interface: i.clone(),
-                                        member: m.clone(),
-                                        error_name: e.clone(),
-                                        reply_serial: rs,
-                                        reply_serial_removed: rem,
-                                        destination: d.clone(),
-                                        dest_inherited: dinh,
-                                        sender: sn.clone(),
-                                        body: bi,
-                                        typed,
-                                        route,
-                                    });
-                                }
-                            }
-                        }
-                    }
-                }
-            }
+            out.push(Case {
+                mtype,
+                be: false,
+                flags: 0,
+                serial: None,
+                path: p.clone(),
+                interface: i.clone(),
+                member: m.clone(),
+                error_name: e.clone(),
+                reply_serial: rs,
+                reply_serial_removed: rem,
+                destination: d.clone(),
+                dest_inherited: dinh,
+                sender: sn.clone(),
+                body: 0,
+                typed: false,
+                route: 0,
+            });
         }
     }
     out
+}
+
+/// The whole case space, materialized lazily: header template × flags × byte order × (body,
+/// route of the body) × serial mode × builder route.
+pub struct Space {
+    pub headers: Vec<Case>,
+    /// (body index, typed twin?)
+    pub variants: Vec<(usize, bool)>,
+    dims: [usize; 6],
+}
+
+const SERIALS: [Option<u32>; 2] = [None, Some(0xfffffffe)];
+
+impl Space {
+    pub fn new(tier: Tier, bodies: &[BodyDef]) -> Self {
+        let headers = enumerate_headers(tier);
+        let mut variants = vec![];
+        for (bi, b) in bodies.iter().enumerate() {
+            variants.push((bi, false));
+            if b.typed.is_some() {
+                variants.push((bi, true));
+            }
+        }
+        let dims = [headers.len(), 8, 2, variants.len(), SERIALS.len(), 2];
+        Self { headers, variants, dims }
+    }
+    pub fn len(&self) -> usize {
+        self.dims.iter().product()
+    }
+    pub fn case(&self, i: usize) -> Case {
+        let mut idx = vec![];
+        vcommon::enumerate::nth_product(&self.dims, i, &mut idx);
+        let mut c = self.headers[idx[0]].clone();
+        c.flags = idx[1] as u8;
+        c.be = idx[2] == 1;
+        (c.body, c.typed) = self.variants[idx[3]];
+        c.serial = SERIALS[idx[4]];
+        c.route = idx[5] as u8;
+        c
+    }
 }
 
 // ---------------------------------------------------------------------------------------------
@@ -941,15 +965,16 @@ pub fn main(args: &Args) -> i32 {
     }
     let report = Report::new("C11", args.tier, args.seed, "exploration");
     let bs = bodies(args.tier);
-    let cases = enumerate(args.tier, &bs);
+    let space = Space::new(args.tier, &bs);
     let _ = fd_table();
     let _ = table_inodes();
-    report.set("cases_enumerated", json!(cases.len()));
+    let n = space.len();
+    report.set("cases_enumerated", json!(n));
+    report.set("header_field_combinations", json!(space.headers.len()));
     report.set("bodies", json!(bs.iter().map(|b| format!("{}:{}", b.name, rm::body_sig(&b.args))).collect::<Vec<_>>()));
-    let n = cases.len();
     let sample_every = (n / 10).max(1);
     par_for(n, 256, |i| {
-        let c = &cases[i];
+        let c = &space.case(i);
         let v = check_case(c, &bs);
         report.eval(1);
         report.outcome(&v.outcome);
@@ -972,7 +997,7 @@ pub fn main(args: &Args) -> i32 {
         None => report.note("libdbus could not be loaded: the reference-model audit was skipped"),
         Some(lib) => {
             let (mut audited, mut masked) = (0u64, 0u64);
-            for c in cases.iter().filter(|c| c.route == 0 && !c.typed && c.serial.is_some()) {
+            for c in (0..n).map(|i| space.case(i)).filter(|c| c.route == 0 && !c.typed && c.serial.is_some()) {
                 if c.reply_serial_removed {
                     masked += 1; // libdbus insists on REPLY_SERIAL in replies; the property does not
                     continue;
